@@ -33,6 +33,7 @@ import (
 	sdk "github.com/cosmos/cosmos-sdk/types"
 
 	chain "github.com/comdex-official/comdex/app"
+	"github.com/comdex-official/comdex/app/wasm/bindings"
 	"github.com/comdex-official/comdex/x/auctionsV2"
 	"github.com/comdex-official/comdex/x/bandoracle"
 	"github.com/comdex-official/comdex/x/esm"
@@ -42,6 +43,7 @@ import (
 	"github.com/comdex-official/comdex/x/liquidity/amm"
 	esmtypes "github.com/comdex-official/comdex/x/esm/types"
 	liquiditytypes "github.com/comdex-official/comdex/x/liquidity/types"
+	lockertypes "github.com/comdex-official/comdex/x/locker/types"
 	"github.com/comdex-official/comdex/x/market"
 	"github.com/comdex-official/comdex/x/rewards"
 	rewardstypes "github.com/comdex-official/comdex/x/rewards/types"
@@ -223,6 +225,19 @@ func c16Replay(t *testing.T, tr *tracer, label string, blocks int) {
 	e := c15Fixture(t, a, ctx)
 	// an external reward program for the vaults of the extended pair: paid once a day for 12 days
 	e.msg(t, a, ctx, true, rewardstypes.NewMsgActivateExternalRewardsVault(e.appHarbor, e.extPair, sdk.NewCoin("uasset3", sdk.NewInt(600000000)), 12, 1, e.user1))
+	// two lockers of the vault app on uasset3 and an external locker-reward program, also daily
+	if _, err := a.LockerKeeper.AddWhiteListedAsset(ctx, &lockertypes.MsgAddWhiteListedAssetRequest{From: e.user1.String(), AppId: e.appHarbor, AssetId: e.assets[2]}); err != nil {
+		t.Fatalf("locker whitelist: %v", err)
+	}
+	if err := a.CollectorKeeper.WasmSetCollectorLookupTable(ctx, &bindings.MsgSetCollectorLookupTable{AppID: e.appHarbor, CollectorAssetID: e.assets[2],
+		SecondaryAssetID: e.assets[1], SurplusThreshold: sdk.NewInt(10000000), DebtThreshold: sdk.NewInt(5000000), LockerSavingRate: sdk.NewDecWithPrec(5, 2),
+		LotSize: sdk.NewInt(2000000), BidFactor: sdk.NewDecWithPrec(1, 2), DebtLotSize: sdk.NewInt(2000000)}); err != nil {
+		t.Fatalf("collector lookup: %v", err)
+	}
+	fund(t, a, ctx, e.user2, sdk.NewCoins(sdk.NewCoin("uasset3", sdk.NewInt(900000000))))
+	e.msg(t, a, ctx, true, lockertypes.NewMsgCreateLockerRequest(e.user1.String(), sdk.NewInt(500000000), e.assets[2], e.appHarbor))
+	e.msg(t, a, ctx, true, lockertypes.NewMsgCreateLockerRequest(e.user2.String(), sdk.NewInt(300000000), e.assets[2], e.appHarbor))
+	e.msg(t, a, ctx, true, rewardstypes.NewMsgActivateExternalRewardsLockers(e.appHarbor, e.assets[2], sdk.NewCoin("uasset4", sdk.NewInt(700000000)), 12, 1, e.user1))
 	users := []sdk.AccAddress{e.user1, e.user2}
 	for i := 0; i < 12; i++ {
 		users = append(users, addrN(200+i))
